@@ -15,6 +15,7 @@ import json
 import os
 import signal
 import sys
+import time
 import warnings
 from pathlib import Path
 
@@ -381,7 +382,8 @@ class Life:
         for i, op in enumerate(self.plan["ops"]):
             ev = {"i": i, "op": op["op"]}
             fn = getattr(self, "op_" + op["op"])
-            signal.alarm(timeout)
+            t_op = time.perf_counter()  # reporting only: never enters a digest or a decision
+            signal.alarm(min(timeout, 25) if op.get("how") in ("simplify", "nosing") else timeout)
             try:
                 fn(op, ev)
                 ev["status"] = "ok"
@@ -402,6 +404,7 @@ class Life:
                 ev["msg"] = str(e)[:200]
             finally:
                 signal.alarm(0)
+            ev["ms"] = int((time.perf_counter() - t_op) * 1000)
             events.append(ev)
             if timed_out:
                 break
